@@ -226,3 +226,77 @@ fn iri_alphabet3() {
     partition_ok(s, &r);
     kani::cover!(r.is_ok() && s.len() > 3, "reachable: accepted input with a multi-byte character");
 }
+
+// ---- prefixed names against the token grammar (longest match), small ASCII alphabet, every string of <= N symbols ----
+// FAITHFULNESS half of C16 for one scanner: the token handed to the syntax tree is exactly the term as written.
+const PN_ALPHA: [u8; 8] = [b'p', b':', b'\\', b'(', b'-', b'.', b'1', b' '];
+
+/// Independent recogniser (the specification): length of the longest prefix of `b` that is a prefixed name
+/// PNAME_NS PN_LOCAL? of the SPARQL grammar, restricted to the alphabet (p: PN_CHARS_BASE, 1: digit, '-' PN_CHARS,
+/// '.' only between other characters, "\(" "\-" "\." escapes); None when `b` does not start with PNAME_NS.
+/// The flag reports a backslash that is not an escape right behind the token (the scanner rejects such input).
+fn pname_spec(b: &[u8]) -> (Option<usize>, bool) {
+    let mut colon = b.len();
+    let mut i = 0;
+    while i < b.len() { if b[i] == b':' { colon = i; break; } i += 1; }
+    if colon == b.len() { return (None, false); }
+    // PN_PREFIX ::= PN_CHARS_BASE ((PN_CHARS | '.')* PN_CHARS)?
+    if colon > 0 {
+        if b[0] != b'p' { return (None, false); }
+        let mut j = 1;
+        while j < colon {
+            let c = b[j];
+            let pn_chars = c == b'p' || c == b'1' || c == b'-';
+            if !(pn_chars || (c == b'.' && j + 1 < colon)) { return (None, false); }
+            j += 1;
+        }
+    }
+    // PN_LOCAL ::= (PN_CHARS_U | ':' | [0-9] | PLX) ((PN_CHARS | '.' | ':' | PLX)* (PN_CHARS | ':' | PLX))?
+    let mut j = colon + 1;
+    let mut token_end = j;
+    let mut first = true;
+    let mut bad_escape = false;
+    while j < b.len() {
+        let c = b[j];
+        if c == b'p' || c == b'1' || c == b':' || (c == b'-' && !first) { j += 1; token_end = j; first = false; continue; }
+        if c == b'.' && !first { j += 1; continue; }
+        if c == b'\\' {
+            if j + 1 < b.len() && (b[j + 1] == b'(' || b[j + 1] == b'-' || b[j + 1] == b'.') { j += 2; token_end = j; first = false; continue; }
+            bad_escape = true;
+        }
+        break;
+    }
+    (Some(token_end), bad_escape)
+}
+
+macro_rules! pname_grammar_harness {
+    ($name:ident, $n:expr, $unwind:expr) => {
+        #[kani::proof]
+        #[kani::unwind($unwind)]
+        fn $name() {
+            let mut buf = [0u8; $n];
+            let len: usize = kani::any();
+            kani::assume(len <= $n);
+            let mut i = 0;
+            while i < $n { let c: usize = kani::any(); kani::assume(c < 8); buf[i] = PN_ALPHA[c]; i += 1; }
+            // leading white space is sparql_skip_ws's business (own harness)
+            kani::assume(len == 0 || buf[0] != b' ');
+            let s = unsafe { std::str::from_utf8_unchecked(&buf[..len]) };
+            let (want, bad_escape) = pname_spec(&buf[..len]);
+            let r = sparql_prefixed_name(s);
+            partition_ok(s, &r);
+            match (&r, want) {
+                (Ok((_, tok)), Some(n)) => assert!(tok.len() == n, "the token is the longest prefix of the input that is a prefixed name of the SPARQL grammar"),
+                (Ok(_), None) => assert!(false, "no token is produced when the input does not start with a prefixed name"),
+                (Err(_), Some(_)) => assert!(bad_escape, "an input that starts with a prefixed name yields its token"),
+                (Err(_), None) => {}
+            }
+            kani::cover!(r.is_ok() && len == $n, "reachable: an accepted input of full length");
+            kani::cover!(bad_escape, "reachable: a dangling backslash");
+        }
+    };
+}
+pname_grammar_harness!(prefixed_name_grammar_alphabet4, 4, 7);
+pname_grammar_harness!(prefixed_name_grammar_alphabet5, 5, 8);
+pname_grammar_harness!(prefixed_name_grammar_alphabet6, 6, 9);
+pname_grammar_harness!(prefixed_name_grammar_alphabet7, 7, 10);
